@@ -15,7 +15,9 @@ RULE = ("one op line per case: `khx <type> <value> <specification key bytes>` on
         "types with distinct flattened ids: fixed-size keys around the 16-byte border (8..24 bytes), string and "
         "sequence keys (bounded and unbounded), nested key structures; FOLLOW-UP 3: one generated type in twelve has an OPTIONAL "
         "member of structure type with key members of its own (value present or absent): those members are not key members, "
-        "the specification bytes and the independent Python key bytes leave them out; non-trivial: key of more than one member or a "
+        "the specification bytes and the independent Python key bytes leave them out; FOLLOW-UP 5: one generated type in twelve "
+        "has a KEY member of structure type with key flags of its own whose first inner id meets an earlier outer key id: "
+        "the key bytes contain that member's whole value once and the outer key member unchanged; non-trivial: key of more than one member or a "
         "key of maximum size > 16; distinct by canonical op line")
 ASSUMPTIONS = [
     "member order of the key serialization = declaration order (the order the code uses; for the types IDL produces "
@@ -123,7 +125,7 @@ def gen_cases(ctx):
         if k % 2 == 0:
             t = gen_border_type(r)
         else:
-            t = X.gen_keyed_type(r, ver=1, collide=False, exotic=(k % 13 == 1), optkey=(k % 6 == 1))
+            t = X.gen_keyed_type(r, ver=1, collide=False, exotic=(k % 13 == 1), optkey=(k % 6 == 1), keystruct=(k % 6 == 3))
         v = X.gen_value(r, t, X.Knobs(ver=1), ver=1)
         if not X.legal_sample(t, v) or "_" in X.key_view(t, v):
             continue
@@ -139,6 +141,9 @@ def gen_cases(ctx):
 
 
 CORPUS = [
+    # follow-up 5 (seed C12_c): a key member of structure type with key members of its own, inner id = earlier outer key id
+    ("SF{0k:u32,1k:SF{0k:u32,2:u8},3:u16}", "{7,{3,1},5}"),
+    ("SA{0k:u8,1k:SF{0k:u16,2k:u8}}", "{7,{3,1}}"),
     # follow-up 3: the key members of an OPTIONAL nested structure are not part of the key (present / absent)
     ("SF{0k:u8,5o:SF{6k:u8,7k:u16},2:u32}", "{5,{1,2},7}"),
     ("SF{0k:u8,5o:SF{6k:u8,7k:u16},2:u32}", "{5,_,7}"),
@@ -172,6 +177,8 @@ def run(ctx):
         if isinstance(m, int) and m != X.UNBOUNDED and 14 <= m <= 18:
             ctx.count(f"maximum key size = {m}")
         ctx.count("actual key size " + ("<= 16" if len(b) <= 16 else "> 16"))
+        if X.key_struct_paths(t):
+            ctx.count("type has a key member of structure type whose inner key id meets an earlier outer key id")
         ps = X.opt_keyed_struct_paths(t)
         if ps:
             ctx.count("type has an optional structure member with key members of its own: value " +
@@ -188,7 +195,8 @@ LEVEL_TEXT = ("Kernel-checked Lean theorems: C12_rule_partial (for every keyed s
               "serialization has exactly n bytes and the handle is pad16 if n <= 16, MD5 otherwise, i.e. the 7.6.8 rule with the "
               "maximum size), C12_small_keys_are_padded, C12_optional_nested_struct_not_in_key (every keyed structure type, value, optional "
               "non-key member - in particular an optional nested structure with key members of its own - and replacement value incl. "
-              "none: key holder, key serialization, handle and the outcome of the real function unchanged), and the as-is witness C12_asis_counterexample (string key \"ab\": the type "
+              "none: key holder, key serialization, handle and the outcome of the real function unchanged), "
+              "C12_key_struct_member_not_flattened (key flags inside a key member's type are irrelevant), and the as-is witness C12_asis_counterexample (string key \"ab\": the type "
               "has no maximum size, the code pads; finding D16, replayed). For keys of variable size the rule of the standard is "
               "violated by the code exactly as D16 says; the differential run checks every handle against the Python computation "
               "and reports those cases as the known finding. The model is tied to the code by the bytes of the handles of "
